@@ -20,7 +20,7 @@ props.prop(
     not_decided='that numpy\'s isin / result_type / byte views behave as documented; duplicates inside one dataset',
     assumptions=['_key_joins[other] = (own key attributes, other\'s key attributes)'])
 props.also('C11',
-           "that no key is cast one-sidedly to the other side's dtype before comparison")
+           "that no key is cast one-sidedly to the other side's dtype before comparison; that both directions of a join are stored under the same condition")
 
 JOINS = 'glue.core.joins.get_mask_with_key_joins'
 
